@@ -21,14 +21,25 @@ def first_garg(t):
     return a[0] if isinstance(a, list) and a else None
 
 
-def model_custom(m, which):
+def contract_param(f):
+    """name of the type parameter standing for the implementing contract in an interface's `dispatch(self, contract: &X, ctx)`
+    (whatever the generator calls it: the property does not fix the names of helper parameters)"""
+    ins = f["inputs"]
+    if len(ins) >= 2 and ins[1]["ty"]["k"] == "ref" and ins[1]["ty"]["elem"]["k"] == "path":
+        segs = ins[1]["ty"]["elem"]["path"]["segs"]
+        if len(segs) == 1 and not segs[0]["args"]:
+            return segs[0]["id"]
+    return None
+
+
+def model_custom(m, which, cname="?"):
     """Model type string (suffix-compared) for the custom msg/query type of an item."""
     if m.custom[which]:
         return m.custom[which]
     if m.kind == "interface":
         assoc = "ExecC" if which == "msg" else "QueryC"
         if any(t["name"] == assoc for t in m.assoc_types):
-            return f"<ContractT as {m.name}>::{assoc}"
+            return f"<{cname} as {m.name}>::{assoc}"
     return "Empty"
 
 
@@ -61,7 +72,7 @@ def check_signature(ctx, m, key, kind, f, node, rule="C02.signature"):
         ctx.violation(rule, key + ["ctx-types"], C.where(m, f), want_names, got, STATEMENT, "MsgType::emit_ctx_type")
     else:
         q = first_garg(t["elems"][0])
-        wq = model_custom(m, "query")
+        wq = model_custom(m, "query", contract_param(f))
         if q is None or not ty_matches(A.type_str(q), wq):
             ctx.violation(rule, key + ["ctx-query-type"], C.where(m, f), wq, q and A.type_str(q), STATEMENT)
     out = f["output"]
@@ -79,7 +90,7 @@ def check_signature(ctx, m, key, kind, f, node, rule="C02.signature"):
             ctx.violation(rule, key + ["result-ok"], C.where(m, f), "Response<CustomMsg>", A.type_str(okty), STATEMENT, "MsgType::emit_result_type")
         else:
             cm = first_garg(okty)
-            wm = model_custom(m, "msg")
+            wm = model_custom(m, "msg", contract_param(f))
             if cm is None or not ty_matches(A.type_str(cm), wm):
                 ctx.violation(rule, key + ["result-custom-msg"], C.where(m, f), wm, cm and A.type_str(cm), STATEMENT)
     if m.kind == "contract":
@@ -88,8 +99,12 @@ def check_signature(ctx, m, key, kind, f, node, rule="C02.signature"):
         if not (A.compact(es) == A.compact(we) or (m.error is None and es.endswith("::StdError"))):
             ctx.violation(rule, key + ["error-type"], C.where(m, f), we, es, STATEMENT)
     else:
-        if A.type_str(errty) != "ContractT::Error":
-            ctx.violation(rule, key + ["error-type"], C.where(m, f), "ContractT::Error", A.type_str(errty), STATEMENT)
+        cname = contract_param(f)
+        declared = [p["name"] for p in f["generics"]["params"] if p["k"] == "type"]
+        if cname is None or cname not in declared:
+            ctx.violation(rule, key + ["contract-param"], C.where(m, f), "contract: &X with X a type parameter of dispatch", A.type_str(ins[1]["ty"]), STATEMENT)
+        elif A.type_str(errty) != f"{cname}::Error":
+            ctx.violation(rule, key + ["error-type"], C.where(m, f), f"{cname}::Error", A.type_str(errty), STATEMENT)
 
 
 def check_enum(ctx, m, g, kind):
